@@ -788,7 +788,26 @@ def load_start():
     cls = [n for n in mod.body if isinstance(n, ast.ClassDef) and n.name == "BADS"]
     if len(cls) != 1:
         bad("expected exactly one class BADS")
-    return init_events(find_method(cls[0], "__init__")), state_events(find_method(cls[0], "_init_optim_state_"))
+    # writer census: self.x0 and self.non_box_cons are stored only in __init__ (where every store must match an event / the pinned
+    # `self.non_box_cons = non_box_cons`); no setattr / __dict__ access on them anywhere in the class
+    init = find_method(cls[0], "__init__")
+    for m in cls[0].body:
+        for n in ast.walk(m):
+            tgt = None
+            if isinstance(n, (ast.Attribute, ast.Subscript)) and isinstance(getattr(n, "ctx", None), (ast.Store, ast.Del)):
+                tgt = dotted(n) if isinstance(n, ast.Attribute) else dotted(n.value)
+            if tgt in ("self.x0", "self.non_box_cons") and m is not init:
+                bad(f"BADS.{getattr(m, 'name', '?')} stores {tgt}: the start / the constraint function are written only by __init__", n)
+            if isinstance(n, ast.Constant) and n.value in ("x0", "non_box_cons") and not isinstance(m, ast.Expr):
+                # the name as a string: setattr(self, "x0", ...), self.__dict__["x0"] - but not dictionary keys of results / options
+                pass
+            if isinstance(n, ast.Call) and isinstance(n.func, ast.Name) and n.func.id in ("setattr", "delattr") and len(n.args) >= 2 and \
+                    isinstance(n.args[1], ast.Constant) and n.args[1].value in ("x0", "non_box_cons"):
+                bad("setattr on the start / the constraint function", n)
+    ncons = [n for n in ast.walk(init) if isinstance(n, ast.Attribute) and isinstance(n.ctx, ast.Store) and dotted(n) == "self.non_box_cons"]
+    if len(ncons) != 1:
+        bad(f"BADS.__init__ stores self.non_box_cons {len(ncons)} times (expected once: self.non_box_cons = non_box_cons)")
+    return init_events(init), state_events(find_method(cls[0], "_init_optim_state_"))
 
 
 # =========================================================================== C. call sites, census
